@@ -23,6 +23,11 @@ TEMPLATE-MATCHED, statement by statement (no hole, or only the holes named above
   * demuxed_spectral_information (is_in_band on frequency and slot width, select_channels when any, else None) and
     muxed_spectral_information (first + mux(rest), singleton, ValueError);
   * Transceiver._calc_snr and update_snr (every reported figure restarts from its raw value, same snr_added);
+  * the element programs: Roadm / Fused / Fiber / RamanFiber / Edfa .propagate, Transceiver.__call__ and the __call__
+    wrappers are matched against whole-body templates (Roadm: harness/pygen_c06.py, Edfa + noise_profile: pygen_c04.py,
+    Fiber / RamanFiber: pygen_c03.py), and the SpectralInformation primitives each body applies are extracted in source
+    order into g_program_<kind> (proved to be the kind programs of the model, Proofs/SIGen.v); a primitive anywhere
+    else in these classes, or a direct write to the power / share arrays, is Unsupported;
   * Multiband_amplifier.__call__ and Edfa.__call__ (templates imported from harness/pygen_c07.py: per amplifier demux on
     its own band, `if si:` skips exactly the empty result, amplify, mux of all outputs).
 """
@@ -32,6 +37,9 @@ import os
 from . import common
 from .pygen import Unsupported, dotted, unify, strip_doc, match_template
 from .pygen_c07 import MULTI_CALL_TEMPLATE, EDFA_CALL_TEMPLATE
+from .pygen_c06 import PROPAGATE as ROADM_PROPAGATE_TEMPLATE
+from .pygen_c04 import PROPAGATE_TEMPLATE as EDFA_PROPAGATE_TEMPLATE, NOISE_TEMPLATE as EDFA_NOISE_TEMPLATE
+from .pygen_c03 import FIBER_PROPAGATE_TEMPLATE, RAMAN_PROPAGATE_TEMPLATE
 
 INFO = 'gnpy/core/info.py'
 ELEMENTS = 'gnpy/core/elements.py'
@@ -300,6 +308,131 @@ def check_keyword_call(call, what, value_ok):
             raise Unsupported(f'{what}: argument {k.arg} is not built from the same array of the operand(s)')
 
 
+PRIMS = {'apply_attenuation_db': 'OAtt', 'apply_attenuation_lin': 'OAtt', 'apply_gain_db': 'OGain', 'apply_gain_lin': 'OGain',
+         'add_ase': 'OAse', 'add_nli': 'ONli'}
+BOOKKEEPING = ('_pch', '_signal_ratio', '_ase_ratio', '_nli_ratio', 'pch')
+
+
+def primitive_program(fn, si_name, what):
+    """the SpectralInformation primitives a propagate / __call__ body applies to its spectrum, in source order, as
+    [(optional?, kind)]: a primitive directly in the body is mandatory, one inside a plain `if` (no else) is optional;
+    anywhere else (loop, else branch, nested deeper, other receiver, lambda ...) -> Unsupported.  Any direct write to the
+    power / share arrays of the spectrum is Unsupported too: the element programs of the model are made of the
+    primitives only."""
+    prog = []
+
+    def prim_of(stmt):
+        if isinstance(stmt, ast.Expr) and isinstance(stmt.value, ast.Call) and isinstance(stmt.value.func, ast.Attribute) \
+                and stmt.value.func.attr in PRIMS:
+            if not (isinstance(stmt.value.func.value, ast.Name) and stmt.value.func.value.id == si_name):
+                raise Unsupported(f'{what}: primitive {stmt.value.func.attr} applied to something else than {si_name}')
+            return PRIMS[stmt.value.func.attr]
+        return None
+
+    def no_hidden(node):
+        for x in ast.walk(node):
+            if isinstance(x, ast.Attribute) and x.attr in PRIMS:
+                raise Unsupported(f'{what}: primitive {x.attr} used outside a plain statement of the body')
+            if isinstance(x, (ast.Assign, ast.AugAssign, ast.AnnAssign)):
+                tg = x.targets if isinstance(x, ast.Assign) else [x.target]
+                for tgt in tg:
+                    for y in ast.walk(tgt):
+                        if isinstance(y, ast.Attribute) and y.attr in BOOKKEEPING and isinstance(y.value, ast.Name) \
+                                and y.value.id == si_name:
+                            raise Unsupported(f'{what}: direct write to {si_name}.{y.attr}')
+            if isinstance(x, ast.Call) and isinstance(x.func, ast.Name) and x.func.id in ('setattr', 'exec', 'eval'):
+                raise Unsupported(f'{what}: {x.func.id}')
+    for s in strip_doc(fn.body):
+        k = prim_of(s)
+        if k:
+            for a in s.value.args:
+                no_hidden(a)
+            prog.append((False, k))
+        elif isinstance(s, ast.If) and not s.orelse and any(prim_of(x) for x in s.body):
+            no_hidden(s.test)
+            for x in s.body:
+                kk = prim_of(x)
+                if kk:
+                    prog.append((True, kk))
+                else:
+                    no_hidden(x)
+        else:
+            no_hidden(s)
+    return prog
+
+
+def prog_lit(prog):
+    return '[' + '; '.join(f'({"true" if o else "false"}, {k})' for o, k in prog) + ']'
+
+
+CALL_PROPAGATE_TEMPLATE = """
+self.propagate(spectral_info)
+return spectral_info
+"""
+ROADM_CALL_TEMPLATE = """
+self.propagate(spectral_info, degree=degree, from_degree=from_degree)
+return spectral_info
+"""
+FIBER_CALL_TEMPLATE = """
+pin = spectral_info.ptot_dbm
+self.propagate(spectral_info)
+pout = spectral_info.ptot_dbm
+loss = - round(pout - pin, 2)
+self.pch_out_db = self.ref_pch_in_dbm - loss
+return spectral_info
+"""
+TRX_CALL_TEMPLATE = """
+self.tx_power = spectral_info.tx_power
+self._calc_snr(spectral_info)
+self._calc_cd(spectral_info)
+self._calc_pmd(spectral_info)
+self._calc_pdl(spectral_info)
+self._calc_latency(spectral_info)
+return spectral_info
+"""
+
+
+def gen_programs(etree):
+    """per element kind: whole-body templates (imported from the translators of C06 / C04 / C03 where they exist) and the
+    list of primitives the body applies, generated as g_program_<kind>"""
+    out = ['(* ---- element programs: the SpectralInformation primitives each element kind applies, in source order;',
+           '        (true, k) = inside a plain `if` (optional), (false, k) = always ---- *)',
+           'Fixpoint g_variants (p : list (bool * okind)) : list (list okind) :=',
+           '  match p with',
+           '  | [] => [[]]',
+           '  | (false, k) :: t => map (cons k) (g_variants t)',
+           '  | (true, k) :: t => map (cons k) (g_variants t) ++ g_variants t',
+           '  end.', '']
+    spec = [('roadm', 'Roadm', 'propagate', ROADM_PROPAGATE_TEMPLATE, 'Roadm', ROADM_CALL_TEMPLATE),
+            ('fused', 'Fused', 'propagate', 'spectral_info.apply_attenuation_db(self.loss)', 'Fused', CALL_PROPAGATE_TEMPLATE),
+            ('fiber', 'Fiber', 'propagate', FIBER_PROPAGATE_TEMPLATE, 'Fiber', FIBER_CALL_TEMPLATE),
+            ('raman', 'RamanFiber', 'propagate', RAMAN_PROPAGATE_TEMPLATE, None, None),
+            ('edfa', 'Edfa', 'propagate', EDFA_PROPAGATE_TEMPLATE, None, None),
+            ('trx', 'Transceiver', '__call__', TRX_CALL_TEMPLATE, None, None)]
+    for name, cls, meth, tmpl, call_cls, call_tmpl in spec:
+        fn = one(etree, cls, meth)
+        match_template(tmpl, strip_doc(fn.body), f'{cls}.{meth}')
+        prog = primitive_program(fn, 'spectral_info', f'{cls}.{meth}')
+        if call_cls:
+            cfn = one(etree, call_cls, '__call__')
+            match_template(call_tmpl, strip_doc(cfn.body), f'{call_cls}.__call__')
+            if primitive_program(cfn, 'spectral_info', f'{call_cls}.__call__'):
+                raise Unsupported(f'{call_cls}.__call__ applies primitives itself')
+        out.append(f'(* {ELEMENTS}: {cls}.{meth} *)')
+        out.append(f'Definition g_program_{name} : list (bool * okind) :=\n  {prog_lit(prog)}.\n')
+    # RamanFiber has no __call__ of its own (Fiber.__call__), Edfa.__call__ / Multiband_amplifier.__call__ are matched above;
+    # what an amplifier adds as ASE is one expression returned by noise_profile
+    if defs(etree, 'RamanFiber', '__call__'):
+        raise Unsupported('RamanFiber.__call__ exists')
+    match_template(EDFA_NOISE_TEMPLATE, strip_doc(one(etree, 'Edfa', 'noise_profile').body), 'Edfa.noise_profile')
+    for cls in ('Roadm', 'Fused', 'Fiber', 'RamanFiber', 'Edfa', 'Transceiver', 'Multiband_amplifier'):
+        for n in ast.walk(next(x for x in etree.body if isinstance(x, ast.ClassDef) and x.name == cls)):
+            if isinstance(n, ast.FunctionDef) and n.name not in ('propagate', '__call__') \
+                    and any(isinstance(x, ast.Attribute) and x.attr in PRIMS for x in ast.walk(n)):
+                raise Unsupported(f'{cls}.{n.name} applies SpectralInformation primitives outside propagate / __call__')
+    return out
+
+
 def generate(repo=None):
     repo = repo or common.REPO
     tree = ast.parse(open(os.path.join(repo, INFO)).read())
@@ -391,6 +524,7 @@ def generate(repo=None):
     match_template(MULTI_CALL_TEMPLATE, strip_doc(one(etree, 'Multiband_amplifier', '__call__').body),
                    'Multiband_amplifier.__call__')
     match_template(EDFA_CALL_TEMPLATE, strip_doc(one(etree, 'Edfa', '__call__').body), 'Edfa.__call__')
+    out += gen_programs(etree)
     match_template(SNR_SUM_TEMPLATE, strip_doc(defs(utree, None, 'snr_sum')[0].body), 'utils.snr_sum')
     return '\n'.join(out)
 
